@@ -970,12 +970,26 @@ def release_sites(body, hold, seeds=(), include_cleanup=False):
     place, or a call that takes it by move)."""
     out = []
     seeds = set(seeds)
+    # whole-value moves out of a holder: a later `drop` of that local is a no-op (this MIR is
+    # taken before drop elaboration, so drops of moved-from locals are still present)
+    moved_at = {}
+    for b in range(body.n):
+        if body.blocks[b]["cl"]:
+            continue
+        for st in body.stmts(b):
+            r = st["r"]
+            if r["k"] == "use":
+                pl = r["a"].get("mv")
+                if pl and not pl.get("p") and pl["l"] in hold:
+                    moved_at.setdefault(pl["l"], []).append(b)
     for b in range(body.n):
         if body.blocks[b]["cl"] and not include_cleanup:
             continue
         t = body.blocks[b]["t"]
         if t["k"] == "drop":
             pl = t["p"]
+            if not pl.get("p") and not body.blocks[b]["cl"] and any(body.dominates(m, b) for m in moved_at.get(pl["l"], [])):
+                continue
             if (pl["l"] in hold and not pl.get("p")) or (pl["l"], mir.norm_proj(pl.get("p"))) in seeds:
                 out.append(b)
         elif t["k"] == "call":
